@@ -119,7 +119,40 @@ GROUP = [
     ("/x/<n:nofilter>", [], ["/x/a"]),           # RuntimeError
     ("/<a>/<a>", [], ["/a/a"]),                  # re.error: name twice
     ("/<1>", [], ["/a"]),                        # re.error: bad name
+    # literal text is regex syntax for the code: outside compile_route
+    ("/a.b/<n>", [], ["/a.b/x", "/aXb/x"]),
+    ("/v(1|2)/<n:int>", [], ["/v1/10", "/v2/3", "/v(1|2)/3"]),
+    ("/s+/<n>", [], ["/s/a", "/sss/a", "/s+/a"]),
+    ("/<ž>", [], ["/a"]),                        # non-ASCII group name
+    ("/<n:re:a$>", [], ["/a"]),                  # anchor inside a filter
 ]
+NOBRIDGE = {"/x/<n:nofilter>", "/<a>/<a>", "/<1>", "/a.b/<n>",
+            "/v(1|2)/<n:int>", "/s+/<n>", "/<ž>", "/<n:re:a$>"}
+
+# directed tables (every order is run): the clauses of the property
+DIRECTED = [
+    # static path wins even when only other methods are registered (405)
+    [("route", "/a/b", 4), ("route", "/a/<n>", 3), ("regular", r"/a/\w+", 511)],
+    # overlapping patterns: registration order decides
+    [("route", "/a/<n>", 3), ("route", "/a/<n:int>", 3),
+     ("route", "/<a>/<b>", 3), ("regular", r"/a", 3)],
+    # a matching pattern without the method is passed over
+    [("route", "/a/<n>", 4), ("route", "/<a>/<b>", 2), ("regular", r"/a/.*", 16)],
+    # re-registration for further methods keeps the first position
+    [("route", "/a/<n>", 2), ("route", "/<a>/<b>", 6), ("route", "/a/<n>", 4)],
+    [("route", "/a/<n>", 2), ("regular", r"/a/(?P<n>[^/]+)\Z", 4),
+     ("route", "/a/<n:re:[^/]+>", 256), ("route", "/<a>/<b>", 511)],
+    # prefix semantics of raw routes against anchored group routes
+    [("regular", r"/i/\d+", 3), ("route", "/i/<n:int>", 3),
+     ("regular", r"/i/\d+$", 4), ("route", "/i/10", 16)],
+    # converters by name with inner groups, inline expressions, case
+    [("route", "/f/<x:float>/<y:int>", 3), ("route", "/r/<v:re:[A-Z]+>", 3),
+     ("route", "/r/<v:re:\\S+>", 3), ("route", "/u/<u:uuid>", 3)],
+]
+DIRECTED_PATHS = ["/a/b", "/a/x", "/a/10", "/a", "/ab", "/a/", "/a/b/c",
+                  "/i/10", "/i/10\n", "/i/10x", "/i/x", "/f/1.5/3", "/f/2/x",
+                  "/r/ABC", "/r/abc", "/r/a b", "/r/ab", "/u/" + UUID1,
+                  "/u/" + UUID1.upper(), "/é/ž", "/A/B"]
 RAW = [
     (r"/u/\w+", ["/u/ab", "/u/ab/cd", "/u/é"]),
     (r"/raw/(\d+)", ["/raw/10", "/raw/10x"]),
@@ -578,7 +611,7 @@ def ops_of(chosen, filters, masks, default, order):
     return ops
 
 
-def probes_for(rng, samples, quick, fs_paths):
+def probes_for(rng, samples, quick, fs_paths, exact=()):
     paths = []
     for smp in samples:
         paths.extend(near_misses(smp))
@@ -598,7 +631,8 @@ def probes_for(rng, samples, quick, fs_paths):
             infos.append(path)              # not transcoded by the server
         for info in infos:
             meths = ["GET", rng.choice(METHODS), rng.choice(METHODS + UNKNOWN)]
-            if not quick or rng.random() < 0.08:
+            if not quick or rng.random() < 0.08 or \
+                    (path in exact and rng.random() < 0.5):
                 meths = METHODS + UNKNOWN
             for meth in dict.fromkeys(meths):
                 out.append((meth, info))
@@ -677,29 +711,13 @@ def body(ctx, rng, quick, root):
         ctx.case(payload, True)
 
     # --------------------------------------------------- route tables
-    nscen = 70 if quick else 700
-    sel_cases, tab_cases, bridge_cases = [], [], []
-    nprobe = 0
-    for sidx in range(nscen):
-        hostile = sidx % 7 == 6
-        chosen, filters, samples = make_scenario(rng, rng.choice([1, 2, 3, 4]))
-        masks = [rng.choice(MASKS) for _ in chosen]
-        default = rng.choice([None, None, (3,), (511,), (4, 2)])
-        debug = rng.random() < 0.3
-        use_root = rng.random() < 0.3
-        index = rng.random() < 0.5
-        orders = [list(range(len(chosen)))]
-        if (not quick and len(chosen) <= 4) or sidx % 10 == 0:
-            orders = [list(p) for p in
-                      itertools.permutations(range(len(chosen)))]
-            if quick:
-                orders = orders[:6]
-        else:
-            rng.shuffle(orders[0])
-        fs_paths = ["/f.txt", "/d", "/d/", "/d/g", "/nothing", "/"] \
-            if use_root else []
-        probes = probes_for(rng, samples, quick, fs_paths)
-        for order in orders:
+    nscen = 70 if quick else 260
+    acc = {"sel": [], "tab": [], "bridge": [], "nprobe": 0}
+
+    def run_table(chosen, filters, masks, default, debug, use_root, index,
+                  orders, probe_sets):
+        for oidx, order in enumerate(orders):
+            probes = probe_sets[min(oidx, len(probe_sets) - 1)]
             ops = ops_of(chosen, filters, masks, default, order)
             impl = Impl(ops, debug, root if use_root else "", index)
             ref = RefRouter()
@@ -719,20 +737,20 @@ def body(ctx, rng, quick, root):
                     detail, reference=repr(ref_out),
                     implementation=repr(impl.outcomes)))
             strings = op_strings(ops)
-            uterm_ops = None
             ops_term = clist(op_term(o) for o in ops)
-            # tables view
-            tab_cases.append((
+            acc["tab"].append((
                 "run_patterns %s %s" % (uclass_term(strings), ops_term),
                 impl.tables(), ("tables", detail)))
             for op in ops:
-                if op[0] == "route" and "<" in op[1] and \
-                        op[1] not in ("/x/<n:nofilter>", "/<a>/<a>", "/<1>"):
-                    bridge_cases.append((
+                if op[0] == "route" and ref_parts(op[1]) != \
+                        [("lit", op[1])] and oidx == 0:
+                    acc["bridge"].append((
                         "run_bridge %s %s %s" % (uclass_term(strings),
                                                  ops_term, slit(op[1])),
-                        True, ("bridge", detail, op[1])))
-            # probes
+                        None if op[1] in NOBRIDGE else True,
+                        ("bridge", detail, op[1])))
+                    ctx.count("bridge-failclosed" if op[1] in NOBRIDGE
+                              else "bridge-structured")
             chunk, results = [], []
             for meth, info in probes:
                 path = decoded(info)
@@ -740,7 +758,8 @@ def body(ctx, rng, quick, root):
                 got = impl.probe(meth, info)
                 want = ref.route(meth, path, debug,
                                  fsk if use_root else None)
-                judge(ctx, ref, want, got, meth, path, dict(detail, path_info=info))
+                judge(ctx, ref, want, got, meth, path,
+                      dict(detail, path_info=info))
                 leaf = want[0] if want[0] != "status" else str(want[1])
                 ctx.count("leaf-" + leaf)
                 ctx.case((tuple(map(tuple, ops)), debug, use_root, index,
@@ -750,15 +769,58 @@ def body(ctx, rng, quick, root):
                           "handler": got["h"], "args": repr(got["args"])})
                 chunk.append((meth, info, fsk))
                 results.append(obs_value(got))
-                nprobe += 1
+                acc["nprobe"] += 1
                 if len(chunk) == 12:
-                    sel_cases.append(select_case(impl, ops, ops_term, debug,
-                                                 use_root, chunk, results,
-                                                 detail))
+                    acc["sel"].append(select_case(
+                        impl, ops, ops_term, debug, use_root, chunk, results,
+                        detail))
                     chunk, results = [], []
             if chunk:
-                sel_cases.append(select_case(impl, ops, ops_term, debug,
-                                             use_root, chunk, results, detail))
+                acc["sel"].append(select_case(
+                    impl, ops, ops_term, debug, use_root, chunk, results,
+                    detail))
+
+    # directed tables: every order, with and without defaults / debug
+    for didx, table in enumerate(DIRECTED):
+        chosen = [(k, t) for k, t, _ in table]
+        masks = [m for _, _, m in table]
+        orders = [list(p) for p in itertools.permutations(range(len(table)))]
+        if quick:
+            orders = orders[::4] if len(orders) > 6 else orders
+        probes = []
+        for path in DIRECTED_PATHS:
+            for meth in (["GET", "POST", "HEAD", "PATCH", "DELETE", "BREW"]
+                         if quick else METHODS + UNKNOWN):
+                probes.append((meth, path_info_of(path)))
+        ctx.count("directed-tables", len(orders))
+        run_table(chosen, [], masks, [None, (511,), (4, 2)][didx % 3],
+                  didx % 2 == 1, False, False, orders, [probes])
+
+    for sidx in range(nscen):
+        chosen, filters, samples = make_scenario(rng, rng.choice([1, 2, 3, 4]))
+        masks = [rng.choice(MASKS) for _ in chosen]
+        default = rng.choice([None, None, (3,), (511,), (4, 2)])
+        debug = rng.random() < 0.3
+        use_root = rng.random() < 0.3
+        index = rng.random() < 0.5
+        orders = [list(range(len(chosen)))]
+        if (not quick and len(chosen) <= 4) or sidx % 10 == 0:
+            orders = [list(p) for p in
+                      itertools.permutations(range(len(chosen)))]
+            if quick:
+                orders = orders[:6]
+        else:
+            rng.shuffle(orders[0])
+        fs_paths = ["/f.txt", "/d", "/d/", "/d/g", "/nothing", "/"] \
+            if use_root else []
+        exact = {t for k, t in chosen if k == "route" and "<" not in t}
+        probe_sets = [probes_for(rng, samples, quick, fs_paths, exact)]
+        if not quick:       # further orders: fewer methods per path
+            probe_sets.append(probes_for(rng, samples, True, fs_paths, exact))
+        run_table(chosen, filters, masks, default, debug, use_root, index,
+                  orders, probe_sets)
+    sel_cases, tab_cases, bridge_cases = acc["sel"], acc["tab"], acc["bridge"]
+    nprobe = acc["nprobe"]
     ctx.correspondence("tables", IMPORTS, tab_cases, lambda p: list(p))
     ctx.correspondence("bridge", IMPORTS, bridge_cases, lambda p: list(p))
     ctx.correspondence("select", IMPORTS, sel_cases, lambda p: list(p))
